@@ -4,7 +4,7 @@ import json
 META = {
     "level": "exploration",
     "technique": "TLA+ relation Post(orig, obs, out) evaluated by TLC on every record produced by the real _address_translation over an exhaustively enumerated abstract alphabet",
-    "text": "Exhaustive over all pairs of multiaddr component-kind sequences up to length 2 (quick) / 3 (thorough) over 9 kinds (ip4, ip6, dns, dns4, dns6, tcp, udp, quic-v1, p2p); the TLA+ relation in specs/RelAddrTranslate.tla is the oracle and TLC evaluates it for every (input, output) record of the real function. A pure function with a finite abstract case analysis, so enumeration of the abstract space is the right level.",
+    "text": "Exhaustive over all pairs of multiaddr component-kind sequences up to length 2 (quick) / 3 (thorough) over 9 kinds (ip4, ip6, dns, dns4, dns6, tcp, udp, quic-v1, p2p), with the observed address's first component either different from the original's or the same host value; the TLA+ relation in specs/RelAddrTranslate.tla is the oracle and TLC evaluates it for every (input, output) record of the real function. A pure function with a finite abstract case analysis, so enumeration of the abstract space is the right level.",
     "note": "Component values are abstracted to two representatives per kind (original vs observed); kinds outside the 9-letter alphabet are not explored.",
     "design_ref": "6/C13",
 }
